@@ -93,6 +93,16 @@ def families(rng):
             # the same with the factor that mentions the free variable before / after the tensor
             r2 = ("red", red, ("bin", binop, (), X, T(rng, (A, B))), D(A))
             yield "shared-distribute", ("bin", binop, (), r2, ("bin", red, (), r2, z))
+        # one user name bound at two nested / sibling binders of a term that occurs twice in a product: after flattening, the second
+        # copy's binders (two different variables with the same user name) must be renamed apart, not onto one another
+        for red, binop in (("add", "mul"), ("logaddexp", "add")):
+            f1, h1 = T(rng, (A, B)), T(rng, (A,))
+            nested = ("red", red, ("bin", binop, (), ("red", red, ("bin", binop, (), f1, X), D(A)), h1), D(A))
+            sibling = ("bin", binop, (), ("red", red, ("bin", binop, (), f1, X), D(A)), ("red", red, ("bin", binop, (), h1, X), D(A)))
+            for x in (nested, sibling):
+                yield "shared-same-name-binders", ("bin", binop, (), x, x)
+                yield "shared-same-name-binders", ("bin", binop, (), x, ("bin", binop, (), T(rng, (B,)), x))
+                yield "shared-same-name-binders", ("red", red, ("bin", binop, (), x, x), D(B))
         # a real-valued lazy term substituted into itself: both copies carry the same mangled binder
         for inner_first in (True, False):
             prod = ("bin", "mul", (), T(rng, (A, B)), ("var", "zr", ("real", ()))) if inner_first else ("bin", "mul", (), ("var", "zr", ("real", ())), T(rng, (A, B)))
